@@ -328,7 +328,7 @@ theorem step_chk (s s' : RState) (t t' : Th) (hs : step s t = some (s', t')) (hi
     simp only [Bool.or_eq_true, not_or, Bool.not_eq_true] at hcond
     refine ⟨List.mem_cons_self, ?_⟩
     cases hh : hasNode s n with
-    | false => rfl
+    | false => exact hh
     | true =>
       obtain ⟨x, hx, e⟩ := (hasNode_iff s n).mp hh
       have := hinv.i2 x hx
@@ -350,5 +350,45 @@ theorem step_chk (s s' : RState) (t t' : Th) (hs : step s t = some (s', t')) (hi
   case create.p4.isFalse w n hcond =>
     simp only [Bool.or_eq_true, Bool.not_eq_true', not_or, Bool.not_eq_true, Bool.not_eq_false] at hcond
     exact hcond.2
+
+end Eru.Cluster2.RI
+
+namespace Eru.Cluster2.RI
+
+theorem step_op (s s' : RState) (t t' : Th) (hs : step s t = some (s', t')) : t'.op = t.op ∧ t'.fault = t.fault := by
+  unfold step at hs
+  by_cases hd : t.done = true
+  · simp [hd] at hs
+  simp only [hd, Bool.false_eq_true, if_false] at hs
+  rcases t with ⟨op, pc, pod, node, locked, fault, ok⟩
+  cases op <;> cases pc <;> simp only [] at hs
+  all_goals (try simp only [unlockStep] at hs)
+  all_goals (repeat' (split at hs))
+  all_goals (first | (simp only [Option.some.injEq, Prod.mk.injEq, reduceCtorEq] at hs) | skip)
+  all_goals (first | (obtain ⟨rfl, rfl⟩ := hs) | skip)
+  all_goals (first | exact ⟨rfl, rfl⟩ | skip)
+
+theorem runAlone_inv : ∀ (fuel : Nat) (s : RState) (t : Th), SysInv ⟨s, [t]⟩ → Chk s t → FaultOK t →
+    SysInv ⟨(runAlone fuel s t).1, [(runAlone fuel s t).2]⟩ := by
+  intro fuel
+  induction fuel with
+  | zero => intro s t h _ _; exact h
+  | succ k ih =>
+    intro s t h hc hf
+    unfold runAlone
+    cases hs : step s t with
+    | none => exact h
+    | some r =>
+      obtain ⟨s', t'⟩ := r
+      simp only
+      have h1 : SysInv (sysStep ⟨s, [t]⟩ 0) :=
+        sysStep_inv ⟨s, [t]⟩ 0 h (fun u hu => by
+          simp only [List.getElem?_cons_zero, Option.some.injEq] at hu
+          rw [← hu]; exact ⟨chk_actok s t hc, hf⟩)
+      have h2 : sysStep ⟨s, [t]⟩ 0 = ⟨s', [t']⟩ := by simp [sysStep, hs]
+      rw [h2] at h1
+      have hop := step_op s s' t t' hs
+      apply ih s' t' h1 (step_chk s s' t t' hs h.1 hc)
+      intro n hn; rw [hop.1] at hn; rw [hop.2]; exact hf n hn
 
 end Eru.Cluster2.RI
